@@ -963,6 +963,14 @@ def frames_of(n):
 
 # ------------------------------------------------------------------------------------------- C03b
 
+def cex_with_vendor_257(n):
+    from bromelia.base import DiameterAVP, DiameterMessage
+    m = n.make("CER" if n.role == "server" else "CEA", True, 1)
+    m.append(DiameterAVP(code=257, vendor_id=9999, flags=0xC0, data=b"\x00\x01"))
+    m.refresh()
+    return m.dump()
+
+
 def garbage_segments(n, rng):
     good = n.make("REQ", True, 1).dump()
     u32x5 = bytes.fromhex("0000010c4000000d0000000001000000")
@@ -985,6 +993,8 @@ def garbage_segments(n, rng):
         # well-formed base messages whose Origin-Host / Origin-Realm is not text (DiameterIdentity is an OctetString on the wire)
         "dwr-origin-host-not-utf8": n.make("DWR", True, 1).dump().replace(n.peer[0].encode(), b"\xff" * len(n.peer[0])),
         "cex-origin-realm-not-utf8": n.make("CER" if n.role == "server" else "CEA", True, 1).dump().replace(n.peer[1].encode(), b"\xfe" * len(n.peer[1])),
+        # a well-formed capabilities exchange in which another vendor's AVP uses code 257 (Host-IP-Address) with two data octets
+        "cex-vendor-avp-code-257": cex_with_vendor_257(n),
         "bad-utf8-uri": wrap((292).to_bytes(4, "big") + b"\x40" + (14).to_bytes(3, "big") + b"aaa:\xff\xfe\0\0"),
         "random": bytes(rng.getrandbits(8) for _ in range(rng.choice([1, 19, 20, 33, 64]))),
         "garbage-then-good": bytes([1, 0, 0, 24, 0x80, 0, 1, 60]) + bytes(12) + b"\xde\xad\xbe\xef" + good,
@@ -1052,6 +1062,12 @@ def run_garbage(seed, role, state, kind):
         closed = n.state() == "Closed"
         if dead and not closed:
             problems.append(f"worker thread(s) died and the connection was not closed: {dead}")
+        elif dead:
+            # Closed is also the state a server starts in: "closed cleanly" means the transport is gone too
+            alive = [t.name for t in sc.s.threads if not t.done]
+            if alive or not n.sock.closed:
+                problems.append(f"worker thread(s) died ({dead}); the state reads Closed but the connection was not released "
+                                f"(socket closed: {n.sock.closed}, threads alive: {alive})")
         # the local API still returns
         api = []
 
@@ -1081,7 +1097,7 @@ def run_garbage(seed, role, state, kind):
 def check_garbage(rep):
     rng = random.Random(rep.seed * 7919 + 33)
     kinds = ["length0", "length19", "short-header", "truncated", "avp-length-too-big", "avp-length-zero", "u32-five-bytes", "unknown-enumerator",
-             "misaddressed", "misaddressed-not-utf8-host", "misaddressed-not-utf8-realm", "dwr-origin-host-not-utf8", "cex-origin-realm-not-utf8", "bad-utf8-uri", "random", "garbage-then-good", "good-then-length0", "good-then-length19", "good-then-random", "dwr-then-length0",
+             "misaddressed", "misaddressed-not-utf8-host", "misaddressed-not-utf8-realm", "dwr-origin-host-not-utf8", "cex-origin-realm-not-utf8", "cex-vendor-avp-code-257", "bad-utf8-uri", "random", "garbage-then-good", "good-then-length0", "good-then-length19", "good-then-random", "dwr-then-length0",
              "answer-known-e2e-unknown-hbh"]
     cases = [("client", "open"), ("server", "open"), ("client", "wait-cea"), ("server", "before-cer"), ("client", "closing")]
     reps = 1 if rep.tier == "quick" else 10
